@@ -1,8 +1,18 @@
 #!/bin/bash
-# try_seed.sh <patch> <prop>... — apply a seeded patch to /repo, run the quick checks, undo.
+# try_seed.sh <patch> <prop>... — apply a seeded patch to /repo (git apply, falling back to
+# patch(1) with fuzz when fix commits moved the context), run the quick checks, undo.
 P=$1; shift
-cd /repo && git apply --check "$P" || { echo "patch does not apply to /repo"; exit 2; }
-git apply "$P"
+cd /repo || exit 2
+if git apply --check "$P" 2>/dev/null; then
+  git apply "$P"
+elif patch -p1 --dry-run -F3 -s < "$P" >/dev/null 2>&1; then
+  patch -p1 -F3 -s < "$P"; echo "(applied with fuzz)"
+else
+  echo "patch does not apply to /repo"; exit 2
+fi
+export GOFLAGS=-mod=mod GOPROXY=off GOSUMDB=off GOTOOLCHAIN=local; unset GOWORK
+go build ./... 2>&1 | head -3
+mkdir -p /tmp/tryseed_out; cp /verif/known_findings.json /tmp/tryseed_out/
 cd /verif
-for p in "$@"; do bin/mscheck -prop $p -verif /tmp/tryseed_out 2>&1 | grep -E "VIOLAT|UNDECIDED|tier=" | cut -c1-400; done
-cd /repo && git checkout -- . && git status --short | head -3
+for p in "$@"; do bin/mscheck -prop $p -verif /tmp/tryseed_out 2>&1 | grep -E "^  (VIOLATED|UNDECIDED)|tier=" | cut -c1-${W:-300}; done
+cd /repo && git checkout -- . && git clean -fdq -e '*.orig' && find . -name '*.orig' -delete && git status --short | head -3
